@@ -664,6 +664,75 @@ Proof.
     destruct (run_ops pmxN sch1 mon0 (repeat Next k)) as [[s' m'] ls]. destruct H as (_ & _ & _ & H). exact H.
   - cbn [repeat run_ops]. constructor.
 Qed.
+(* C16, streams: the next step does not depend on which correct planner the object holds (nor on the path flag) *)
+Lemma k3_inj a b : cpk a = true -> cpk b = true -> k3 a = k3 b -> a = b.
+Proof. destruct a, b; cbn; congruence. Qed.
+Lemma e3_inj_list : forall s1 s2, stack_ok s1 -> stack_ok s2 -> map e3 s1 = map e3 s2 -> s1 = s2.
+Proof.
+  induction s1 as [|[[k1 p1] e1] s1 IH]; intros [|[[k2 p2] e2] s2] H1 H2 H; cbn [map] in H; try discriminate; [reflexivity|].
+  inversion H1; inversion H2; subst. injection H as Hk <- <- Hr. cbn [fst] in *. rewrite (k3_inj k1 k2) by assumption. f_equal. apply IH; assumption.
+Qed.
+Lemma toM_inj q1 n1 r1 s1 q2 n2 r2 s2 : pc_ok q1 = true -> pc_ok q2 = true -> stack_ok s1 -> stack_ok s2 ->
+  toM q1 n1 r1 s1 = toM q2 n2 r2 s2 -> q1 = q2 /\ n1 = n2 /\ r1 = r2 /\ s1 = s2.
+Proof.
+  intros Hq1 Hq2 Hs1 Hs2 H. unfold toM in H. injection H as Hq -> -> Hs. rewrite (e3_inj_list s1 s2 Hs1 Hs2 Hs). repeat split; auto.
+  destruct q1 as [k1| | | | | |], q2 as [k2| | | | | |]; cbn [pc_ok] in Hq1, Hq2; try discriminate; cbn [pcM] in Hq;
+    try (destruct k1; discriminate); try (destruct k2; discriminate); try congruence.
+  destruct k1, k2; cbn in Hq1, Hq2, Hq; try discriminate; congruence.
+Qed.
+
+Definition xsched2 (t2 : bool) (f : Z -> Z -> res plan_t) (m : Mixed.st) (fin stt : bool) : sched :=
+  {| ob := OMixed N S_ stg t2 (Some f) m fin; started := stt |}.
+Lemma next_plan_indep sch m f2 t2 : J sch m -> PlOK f2 ->
+  exists f1 ms fin stt ms' fin' o, sch = xsched f1 ms fin stt /\
+    Sched.next sch = (xsched f1 ms' fin' true, o) /\ Sched.next (xsched2 t2 f2 ms fin stt) = (xsched2 t2 f2 ms' fin' true, o).
+Proof.
+  intros HJ Hf2.
+  inversion HJ as [f q n r sn stt0 m0 x Hf Hq Hnd Hsn Hm HI HR HNN Hfw Hn0|f ms0 fin0 stt0 m0 Hfin Hexd Hm Htot]; subst.
+  - pose proof (MixInv.step_ok plan3 C3 plan3_1 plan3_ge2 C3_1 C3_ics C3_adj N S_ stg stg_cp (toM q n r sn) x 0%nat HI) as Hgood.
+    unfold MixInv.Good in Hgood.
+    destruct (MixInv.resume plan3 N S_ stg 3 (toM q n r sn)) as [t' o] eqn:Eres.
+    destruct o as [a| |]; [| |contradiction].
+    2:{ exfalso. unfold toM in Hgood. cbn [MixInv.pcv] in Hgood. destruct q as [stype| | | | | |]; cbn [pcM pc_ok] in *; try discriminate; try congruence.
+        destruct stype; discriminate. }
+    destruct (Inv_facts q n r sn x HI Hq) as (Hrr & Hr & Hlen & Htop).
+    destruct (resume_agrees N S_ stg f Hf 3 q n r sn false t' a Hq Hsn Hlen ltac:(lia) Hn0 (fun E => proj2 (Htop E)) Eres)
+      as (q1 & n1 & r1 & sn1 & e1 & Hon1 & Ht1 & Hq1 & Hsn1 & He1 & _).
+    destruct (resume_agrees N S_ stg f2 Hf2 3 q n r sn false t' a Hq Hsn Hlen ltac:(lia) Hn0 (fun E => proj2 (Htop E)) Eres)
+      as (q2 & n2 & r2 & sn2 & e2 & Hon2 & Ht2 & Hq2 & Hsn2 & He2 & _).
+    rewrite Ht1 in Ht2. destruct (toM_inj _ _ _ _ _ _ _ _ Hq1 Hq2 Hsn1 Hsn2 Ht2) as (<- & <- & <- & <-). rewrite <- He1 in He2. subst e2.
+    exists f, (mst q n r sn false), false, stt0, (mst q1 n1 r1 sn1 e1), false, (Yield a). split; [reflexivity|].
+    unfold Sched.next, xsched, xsched2. cbn [ob].
+    change {| Mixed.max_n := N; Mixed.snapshots := S_; Mixed.stg := stg; Mixed.plan := f |} with (cfgM N S_ stg f).
+    change {| Mixed.max_n := N; Mixed.snapshots := S_; Mixed.stg := stg; Mixed.plan := f2 |} with (cfgM N S_ stg f2).
+    rewrite Hon1, Hon2. split; reflexivity.
+  - unfold Sched.next, xsched, xsched2. cbn [ob]. destruct fin0.
+    + exists f, ms0, true, stt0, ms0, true, StopIteration. repeat split; reflexivity.
+    + destruct Hfin as [Hfin|Hfin]; [discriminate|]. destruct ms0 as [q n r sn e]. cbn [Mixed.pcv] in Hfin. subst q.
+      exists f, (Mixed.mk Mixed.PDone n r sn e), false, stt0, (Mixed.mk Mixed.PDone n r sn e), true, StopIteration. repeat split; reflexivity.
+Qed.
+(* the object after its first request has fixed a correct planner, and starts in the invariant *)
+Definition st0 : Mixed.st := Mixed.mk (Mixed.PInner KNone) 0 0 [] false.
+Lemma start_J : exists f, PlOK f /\ Sched.next sch0 = Sched.next (xsched f st0 false false) /\ J (xsched f st0 false false) mon0.
+Proof.
+  assert (Hf : exists f, PlOK f /\ Sched.next sch0 = Sched.next (xsched f st0 false false)).
+  { destruct tab eqn:Et.
+    - destruct (TabSim.tabulate_planC N S_ HN HS0) as (t & Ht & Hcells).
+      exists (tget t). split; [intros m kk Hm Hk HkS; apply Hcells; lia|].
+      unfold Sched.next, sch0, xsched. cbn [ob]. rewrite Et, Ht. reflexivity.
+    - exists (memo_warm N S_). split; [exact PlOK_memo|].
+      unfold Sched.next, sch0, xsched. cbn [ob]. rewrite Et. reflexivity. }
+  destruct Hf as (f & Hf & Hnext). exists f. split; [exact Hf|]. split; [exact Hnext|].
+  apply (Jrun f (Mixed.PInner KNone) 0 0 [] false mon0 MixInv.init_x); try reflexivity; try discriminate; try lia.
+  - exact Hf.
+  - constructor.
+  - exact (MixInv.inv_init plan3 C3 N S_ HN HS HS0).
+  - unfold RxM, x0, MixInv.init_x, mon0. cbn [mx fwd w_ics w_deps rr seen_endfwd cnt c0 fwd_total MixInv.fwd MixInv.wics MixInv.wdeps MixInv.rr MixInv.endfwd MixInv.store MixInv.done map].
+    repeat split; auto; destruct stg_cp as [E|E]; rewrite E; reflexivity.
+  - unfold NNm, MixInv.init_x. cbn [MixInv.fwd MixInv.wdeps MixInv.store MixInv.rr MixInv.lookup]. repeat split; try discriminate; try lia.
+    intros v Hv; injection Hv as <-; lia.
+  - intros v Hv. cbn in Hv. injection Hv as <-. reflexivity.
+Qed.
 End RUN.
 
 (* MixedCheckpointSchedule, end to end: both storages, both planner paths, every N and every unit count *)
